@@ -31,7 +31,6 @@ RULE = (
     "edge, an id at a wrap point or sign/width boundary, or (hybrid-36) an id beyond the decimal range"
 )
 
-INT32_MAX = 2**31 - 1
 H36_L6_FIRST_BAD = 1543821888  # first value whose base-36 transform overflows a C int at length 6
 
 
@@ -163,9 +162,11 @@ RESNAME_CHARS = "ABCDGLNSUXZ0123"
 # column grammar (syntactic, independent of the case)
 # --------------------------------------------------------------------------
 _RE_INT5 = re.compile(r" *-?\d+\Z")
-_RE_H36_5 = re.compile(r"(?: *\d+|[A-Z][A-Z0-9]{4}|[a-z][a-z0-9]{4})\Z")
+# hybrid-36 columns: a (possibly negative, as the reference implementation writes them) decimal number
+# or a base-36 word of the full width
+_RE_H36_5 = re.compile(r"(?: *-?\d+|[A-Z][A-Z0-9]{4}|[a-z][a-z0-9]{4})\Z")
 _RE_INT4 = _RE_INT5
-_RE_H36_4 = re.compile(r"(?: *\d+|[A-Z][A-Z0-9]{3}|[a-z][a-z0-9]{3})\Z")
+_RE_H36_4 = re.compile(r"(?: *-?\d+|[A-Z][A-Z0-9]{3}|[a-z][a-z0-9]{3})\Z")
 _RE_NAME = re.compile(r" ?[^ ]{1,4} *\Z")
 _RE_RESNAME = re.compile(r" *[^ ]{1,3}\Z")
 _RE_F3 = re.compile(r" *-?\d+\.\d{3}\Z")
@@ -208,24 +209,40 @@ CRYST1_FIELDS = [
     ("beta", 40, 47, lambda s: bool(_RE_UF2.match(s))),
     ("gamma", 47, 54, lambda s: bool(_RE_UF2.match(s))),
     ("blank55", 54, 55, lambda s: s == " "),
-    ("sGroup", 55, 66, lambda s: len(s) == 11 and s.strip() != "" and s[0] != " "),
-    ("z", 66, 70, lambda s: bool(_RE_UINT.match(s))),
+    # space group and Z value are not part of the property: only "nothing that cannot be there"
+    ("sGroup", 55, 66, lambda s: len(s) == 11),
+    ("z", 66, 70, lambda s: s.strip() == "" or bool(_RE_UINT.match(s.rstrip()))),
 ]
 
 
-def grammar_errors(lines, hybrid36):
-    """List of (line number, field, text) for every record that is not in its fixed columns."""
+# Record names of the PDB format (v3.3) besides the ones whose columns are checked here.  A writer may
+# emit any of them (END, TER, REMARK ... are not forbidden by the property); their content is not judged.
+OTHER_PDB_RECORDS = (
+    "HEADER", "OBSLTE", "TITLE", "SPLIT", "SPLT", "CAVEAT", "COMPND", "SOURCE", "KEYWDS", "EXPDTA", "NUMMDL",
+    "MDLTYP", "AUTHOR", "REVDAT", "SPRSDE", "JRNL", "REMARK", "DBREF", "DBREF1", "DBREF2", "SEQADV", "SEQRES",
+    "MODRES", "HET", "HETNAM", "HETSYN", "FORMUL", "HELIX", "SHEET", "SSBOND", "LINK", "CISPEP", "SITE",
+    "ORIGX1", "ORIGX2", "ORIGX3", "SCALE1", "SCALE2", "SCALE3", "MTRIX1", "MTRIX2", "MTRIX3", "ANISOU", "TER",
+    "MASTER", "END",
+)
+
+
+def grammar_errors(lines, hybrid36, other_records=None):
+    """List of (line number, field, text) for every record that is not in its fixed columns.
+    other_records: optional list that receives the names of further (unjudged) PDB records."""
     errs = []
     for i, line in enumerate(lines):
         if line.startswith(("ATOM", "HETATM")):
-            if len(line) != 80:
+            # trailing blanks may be stripped: the fields are judged on the line padded to 80 columns
+            if len(line) > 80:
                 errs.append((i, "length", f"{len(line)} characters: {line!r}"))
+            line = line.ljust(80)
             for name, a, b, test in ATOM_FIELDS:
                 if not test(line[a:b], hybrid36):
                     errs.append((i, name, f"{line[a:b]!r} in {line!r}"))
         elif line.startswith("CRYST1"):
-            if not 70 <= len(line) <= 80 or line[70:].strip() != "":
+            if not 54 <= len(line.rstrip()) <= 80 or line[70:].strip() != "":
                 errs.append((i, "cryst1_length", f"{len(line)} characters: {line!r}"))
+            line = line.ljust(80)
             for name, a, b, test in CRYST1_FIELDS:
                 if not test(line[a:b]):
                     errs.append((i, "cryst1_" + name, f"{line[a:b]!r} in {line!r}"))
@@ -246,7 +263,11 @@ def grammar_errors(lines, hybrid36):
                 errs.append((i, "conect", repr(line)))
         elif line.startswith("ENDMDL"):
             pass
+        elif line[:6].rstrip() in OTHER_PDB_RECORDS:
+            if other_records is not None:
+                other_records.append(line[:6].rstrip())
         else:
+            # not a record of the PDB format at all (e.g. an atom record shifted by a column)
             errs.append((i, "unknown_record", repr(line)))
     return errs
 
@@ -357,9 +378,18 @@ def write_pdb(arr, hybrid36, via_convert, reuse_file=False):
         with warnings.catch_warnings():
             warnings.simplefilter("ignore")
             probe.set_structure(arr, hybrid36=hybrid36)
-        decoy = _decoy_like(len(probe.lines), len(probe.lines) > 0 and probe.lines[0].startswith("CRYST1"))
+        first_is_cryst1 = len(probe.lines) > 0 and probe.lines[0].startswith("CRYST1")
+        decoy = _decoy_like(len(probe.lines), first_is_cryst1)
         if decoy is not None:
             f.set_structure(decoy)
+            # a writer that emits further records (END, TER ...): correct the atom count once so that the
+            # decoy text has as many lines as the text of the structure under test
+            surplus = len(f.lines) - len(probe.lines)
+            if surplus != 0:
+                decoy = _decoy_like(len(probe.lines) - surplus, first_is_cryst1)
+                if decoy is not None:
+                    f.set_structure(decoy)
+        if decoy is not None:
             f.get_structure(model=1)
             f.get_structure(model=None)
             f.get_coord(model=None)
@@ -401,8 +431,9 @@ def expected_ids(case, wrap):
     return aid, rid
 
 
-def check_roundtrip(o, case, f, clause_prefix=""):
-    """Read the written file back in every supported way and compare with the case."""
+def check_roundtrip(o, case, f, clause_prefix="", exp_ids=None):
+    """Read the written file back in every supported way and compare with the case.
+    exp_ids: (atom ids, residue ids) to expect instead of the ones of the case."""
     import biotite.structure as struc
     import biotite.structure.io.pdb as pdb
 
@@ -426,7 +457,7 @@ def check_roundtrip(o, case, f, clause_prefix=""):
         (stack.stack_depth(), stack.array_length()), (depth, n), P + "models_reproduced", "(depth, atoms)"
     ):
         return
-    exp_aid, exp_rid = expected_ids(case, wrap=not hybrid)
+    exp_aid, exp_rid = expected_ids(case, wrap=not hybrid) if exp_ids is None else exp_ids
 
     def cmp_annot(arr, what):
         o.check_eq(arr.chain_id.tolist(), [a["chain"] for a in atoms], P + "chain_reproduced", f"{what} chain_id")
@@ -446,7 +477,8 @@ def check_roundtrip(o, case, f, clause_prefix=""):
             if case.get("bf_dtype") == "f4":
                 want = want.astype(np.float32).astype(np.float64)
             got = np.asarray(arr.get_annotation(field), dtype=np.float64)
-            tol = 0.005 + 1e-9 * np.maximum(1.0, np.abs(want))
+            # half a unit of the last written decimal + the rounding of a reader that keeps float32
+            tol = 0.005 + 4 * np.spacing(np.maximum(np.abs(want), 1.0).astype(np.float32)).astype(np.float64)
             bad = ~(np.abs(got - want) <= tol)
             o.check(not bad.any(), P + clause, lambda: f"{what} {field}: got {got.tolist()} want {want.tolist()}")
 
@@ -462,12 +494,24 @@ def check_roundtrip(o, case, f, clause_prefix=""):
     cmp_coord(stack.coord, coords, "stack")
     cmp_coord(g.get_coord(model=None), coords, "get_coord()")
     # the dedicated B-factor getter reads the same columns as get_structure(extra_fields=["b_factor"])
+    # (both parse the same text; the float type of either is not documented, hence a tolerance far below
+    # the written precision instead of bit equality)
+    def same_bf(got, what):
+        got = np.asarray(got, dtype=np.float64)
+        want = np.asarray(stack.b_factor, dtype=np.float64)
+        if o.check_eq(got.shape, want.shape, P + "b_factor_reproduced", f"{what} shape"):
+            o.check(
+                bool(np.allclose(got, want, atol=1e-4, rtol=1e-6)),
+                P + "b_factor_reproduced",
+                lambda: f"{what}: {got.tolist()} but the b_factor annotation is {want.tolist()}",
+            )
+
     bf_all = np.asarray(g.get_b_factor(model=None))
     if o.check_eq(bf_all.shape, (depth, n), P + "b_factor_reproduced", "get_b_factor() shape"):
         for k in range(depth):
-            o.check_array_eq(bf_all[k], np.asarray(stack.b_factor, dtype=np.float32), P + "b_factor_reproduced", f"get_b_factor() model {k + 1}")
+            same_bf(bf_all[k], f"get_b_factor() model {k + 1}")
     mb = case.get("read_model", 0) % depth
-    o.check_array_eq(np.asarray(g.get_b_factor(model=mb - depth)), np.asarray(stack.b_factor, dtype=np.float32), P + "b_factor_reproduced", f"get_b_factor(model={mb - depth})")
+    same_bf(g.get_b_factor(model=mb - depth), f"get_b_factor(model={mb - depth})")
     # single models, also counted from the end
     m = case.get("read_model", 0) % depth
     for model in (m + 1, m - depth):
@@ -502,7 +546,10 @@ def check_roundtrip(o, case, f, clause_prefix=""):
 
 
 def check_grammar(o, lines, hybrid36, clause="fixed_columns"):
-    errs = grammar_errors(lines, hybrid36)
+    others = []
+    errs = grammar_errors(lines, hybrid36, others)
+    for name in sorted(set(others)):
+        o.label("other_record:" + name)
     conect = [e for e in errs if e[1] == "conect"]
     other = [e for e in errs if e[1] != "conect"]
     if other:
@@ -520,10 +567,17 @@ def check_written_fields(o, case, lines):
     if not o.check_eq(len(atom_lines), len(atoms) * len(case["coords"]), "fixed_columns", "number of ATOM/HETATM records"):
         return
     for k, line in enumerate(atom_lines):
+        line = line.ljust(80)
         a = atoms[k % len(atoms)]
         name = a["name"]
-        want = (" " + name if len(a["element"]) == 1 and len(name) < 4 else name).ljust(4)
-        o.check_eq(line[12:16], want, "atom_name_alignment", f"name columns of {line!r}")
+        if name.upper().startswith(a["element"].upper()):
+            # the format fixes the alignment through the element symbol inside the name: the symbol is
+            # right justified in columns 13-14 (4 character names start in column 13)
+            want = (" " + name if len(a["element"]) == 1 and len(name) < 4 else name).ljust(4)
+            o.check_eq(line[12:16], want, "atom_name_alignment", f"name columns of {line!r}")
+        else:
+            # the name does not start with its element symbol: either alignment is conformant
+            o.check_eq(line[12:16].strip(), name, "atom_name_alignment", f"name columns of {line!r}")
         o.check_eq(line[0:6], "HETATM" if a["hetero"] else "ATOM  ", "fixed_columns", "record name")
         o.check_eq(line[17:20], a["res_name"].rjust(3), "fixed_columns", "resName columns")
         o.check_eq(line[21:22], a["chain"].ljust(1), "fixed_columns", "chainID column")
@@ -574,6 +628,13 @@ def st_atom(hybrid36, bf_dtype="f8"):
     else:
         aid = st.one_of(st.sampled_from(ATOM_ID_DEC_POOL), st.integers(ATOM_ID_DEC_MIN, ATOM_ID_DEC_MAX))
         rid = st.one_of(st.sampled_from(RES_ID_DEC_POOL), st.integers(RES_ID_DEC_MIN, RES_ID_DEC_MAX))
+    def finish(a):
+        # half of the names start with their element symbol (as real atom names do): only for these the
+        # format fixes the column in which the name starts
+        if a.pop("name_from_element"):
+            a["name"] = (a["element"] + a["name"][1:])[:4] if len(a["element"]) == 1 else (a["element"] + a["name"][2:])[:4]
+        return a
+
     return st.fixed_dictionaries(
         {
             "chain": st.one_of(st.sampled_from(CHAIN_CHARS), st.sampled_from(CHAIN_CHARS), st.sampled_from(CHAIN_CHARS), st.just("")),
@@ -582,13 +643,14 @@ def st_atom(hybrid36, bf_dtype="f8"):
             "res_name": st.text(RESNAME_CHARS, min_size=1, max_size=3),
             "hetero": st.booleans(),
             "name": st_name(),
+            "name_from_element": st.booleans(),
             "element": st.one_of(st.sampled_from(ELEMENTS_1), st.sampled_from(ELEMENTS_2)),
             "atom_id": aid,
             "b": st_bf_in(bf_dtype),
             "occ": st_bf_in(bf_dtype),
             "charge": st.integers(-9, 9),
         }
-    )
+    ).map(finish)
 
 
 def st_cell():
@@ -623,11 +685,12 @@ def st_structure(tier, hybrid36):
         st.booleans(),
         cell_st,
         st.integers(0, 5),
+        st.booleans(),
     )
 
     @st.composite
     def gen(draw):
-        n, depth, bf_dtype, fields, force_id, via_convert, as_stack, cell, read_model = draw(head_st)
+        n, depth, bf_dtype, fields, force_id, via_convert, as_stack, cell, read_model, reuse = draw(head_st)
         atoms = draw(st.lists(atom_st[bf_dtype], min_size=n, max_size=n))
         coords = draw(
             st.lists(st.lists(xyz_st, min_size=n, max_size=n), min_size=depth, max_size=depth)
@@ -644,6 +707,7 @@ def st_structure(tier, hybrid36):
             "coords": coords,
             "cell": cell,
             "read_model": read_model,
+            "reuse": reuse,
         }
 
     return gen()
@@ -742,6 +806,14 @@ def label_case(o, case):
         o.label("name_4")
     if any(len(a["name"]) < 4 and len(a["element"]) == 1 for a in case["atoms"]):
         o.label("name_shifted_right")
+    if any(a["name"].upper().startswith(a["element"].upper()) for a in case["atoms"]):
+        o.label("name_starts_with_element")
+        if any(a["name"].upper().startswith(a["element"].upper()) and len(a["element"]) == 2 for a in case["atoms"]):
+            o.label("name_starts_with_2_letter_element")
+    if any(not a["name"].upper().startswith(a["element"].upper()) for a in case["atoms"]):
+        o.label("name_without_element_prefix")
+    if case.get("as_stack") and len(case["coords"]) == 1:
+        o.label("depth_1_stack")
     o.label("via_convert" if case.get("via_convert") else "via_method")
     return nontrivial
 
@@ -754,9 +826,12 @@ def run_roundtrip(case):
         return o
     nontrivial = label_case(o, case)
     arr = build_structure(case)
-    reuse = len(case["atoms"]) % 2 == 0
+    # (cases stored before "reuse" was drawn on its own: even atom counts)
+    reuse = case["reuse"] if "reuse" in case else len(case["atoms"]) % 2 == 0
     if reuse:
         o.label("file_object_reused")
+        if len(case["atoms"]) == 1:
+            o.label("file_object_reused_1_atom")
     f, lines, warns = write_pdb(arr, case["hybrid36"], case.get("via_convert", False), reuse_file=reuse)
     check_grammar(o, lines, case["hybrid36"])
     check_written_fields(o, case, lines)
@@ -791,9 +866,9 @@ OVER_KINDS_DEC = [
     "atom_id_wrap", "atom_id_neg", "res_id_wrap", "res_id_neg",
     "chain_len", "res_name_len", "atom_name_len", "element_len", "ins_code_len", "box_len", "box_nonfinite",
 ]
-OVER_KINDS_H36 = [
-    "coord", "b_factor", "occupancy_nonfinite", "charge", "atom_id_h36_max", "atom_id_h36_neg", "res_id_h36_max",
-    "res_id_h36_neg", "element_len", "ins_code_len", "box_len",
+# hybrid-36 mode: every kind of the decimal mode except the four decimal id kinds, plus its own id kinds
+OVER_KINDS_H36 = [k for k in OVER_KINDS_DEC if k not in ("atom_id_wrap", "atom_id_neg", "res_id_wrap", "res_id_neg")] + [
+    "atom_id_h36_max", "atom_id_h36_neg", "res_id_h36_max", "res_id_h36_neg",
 ]
 NONFINITE = [float("nan"), float("inf"), float("-inf")]
 
@@ -857,6 +932,10 @@ def st_overlimit(tier):
     return gen()
 
 
+def _beyond_column_as_float32(value):
+    return abs(value) < 1e30 and not fits_fixed(f32(value), 2, 6)
+
+
 def apply_injection(case):
     """-> (case with the over-limit value written in, kind of accepted non-error outcome)."""
     inj = case["inject"]
@@ -877,12 +956,13 @@ def apply_injection(case):
     elif kind in ("b_factor", "b_factor_nonfinite"):
         need("b_factor")
         atom["b"] = value
-        if kind == "b_factor":
+        if kind == "b_factor" and not _beyond_column_as_float32(value):
+            # (a float32 annotation is kept where the value is beyond the column as float32 as well)
             case["bf_dtype"] = "f8"
     elif kind in ("occupancy", "occupancy_nonfinite"):
         need("occupancy")
         atom["occ"] = value
-        if kind == "occupancy":
+        if kind == "occupancy" and not _beyond_column_as_float32(value):
             case["bf_dtype"] = "f8"
     elif kind == "charge":
         need("charge")
@@ -912,9 +992,37 @@ def apply_injection(case):
     return case
 
 
-def run_overlimit(case):
-    from biotite.structure import BadStructureError
+def wrapped_ids_as_read(o, case, f):
+    """Expected ids of a decimal mode file that was given ids above the column maximum: the given id
+    where it fits, biotite's modulo rule where the file agrees with it, otherwise the id found in the
+    first model provided it is a number of the column range (check_roundtrip then demands this id from
+    every other way of reading)."""
+    want_aid, want_rid = expected_ids(case, wrap=False)
+    rule_aid, rule_rid = expected_ids(case, wrap=True)
+    one = reread(f).get_structure(model=1, extra_fields=["atom_id"])
+    if one.array_length() != len(want_aid):
+        return rule_aid, rule_rid
+    out = []
+    other = False
+    for want, rule, got, lo, hi in (
+        (want_aid, rule_aid, one.atom_id.tolist(), ATOM_ID_DEC_MIN, ATOM_ID_DEC_MAX),
+        (want_rid, rule_rid, one.res_id.tolist(), RES_ID_DEC_MIN, RES_ID_DEC_MAX),
+    ):
+        exp = []
+        for w, r, g in zip(want, rule, got):
+            if lo <= w <= hi:
+                exp.append(w)
+            elif g == r or not lo <= g <= hi:
+                exp.append(r)
+            else:
+                exp.append(int(g))
+                other = True
+        out.append(exp)
+    o.label("wrapped:other_mapping" if other else "wrapped:modulo_rule")
+    return out[0], out[1]
 
+
+def run_overlimit(case):
     o = Outcome()
     base = {k: v for k, v in case.items() if k != "inject"}
     if not in_domain(base):
@@ -928,17 +1036,12 @@ def run_overlimit(case):
         o.label("injection_inside_domain")
         return o
     o.label(kind)
+    if kind in ("b_factor", "occupancy") and bad.get("bf_dtype") == "f4":
+        o.label(kind + "_float32_annotation")
     arr = build_structure(bad)
     try:
         f, lines, warns = write_pdb(arr, bad["hybrid36"], bad.get("via_convert", False))
-    except (BadStructureError, ValueError) as e:
-        o.label("refused:" + type(e).__name__)
-        o.mark_nontrivial(True)
-        return o
-    except OverflowError as e:
-        # an id that does not fit the C integer of the hybrid-36 encoder: also "refused with an error"
-        if not (kind in ("atom_id_h36_max", "res_id_h36_max") and abs(case["inject"]["value"]) > INT32_MAX):
-            raise
+    except Exception as e:  # noqa: BLE001 - "refused with an error": no document names the exception type
         o.label("refused:" + type(e).__name__)
         o.mark_nontrivial(True)
         return o
@@ -946,15 +1049,20 @@ def run_overlimit(case):
     o.label("written")
     ok = check_grammar(o, lines, bad["hybrid36"], clause="overlimit_refused_or_fixed_columns")
     if ok:
+        exp_ids = None
         if kind in ("atom_id_wrap", "res_id_wrap"):
-            # decimal mode wraps ids above the maximum and says so (tested behaviour of biotite)
+            # decimal mode: biotite maps ids above the maximum into the column range and warns.  Neither the
+            # message nor the mapping is documented: any warning counts, and an id above the maximum may come
+            # back as any number the column can hold - the same number through every way of reading, and
+            # every id that did fit comes back unchanged.
             o.label("wrapped")
             o.check(
-                any("wrapped" in w for w in warns),
+                len(warns) >= 1,
                 "overlimit_id_wrap_warned",
-                f"ids above the decimal maximum were written without the wrap warning ({kind})",
+                f"ids above the decimal maximum were silently replaced by other ids ({kind})",
             )
-        check_roundtrip(o, bad, f, clause_prefix="overlimit_written_")
+            exp_ids = wrapped_ids_as_read(o, bad, f)
+        check_roundtrip(o, bad, f, clause_prefix="overlimit_written_", exp_ids=exp_ids)
     o.mark_nontrivial(True)
     return o
 
@@ -1040,6 +1148,9 @@ def st_bonds(tier):
             "hub": hub,
             "with_ccd_bonds": draw(st.booleans()),
             "depth": draw(st.sampled_from([1, 1, 2])),
+            # how the file is written and read back (cases stored earlier: method, model=1)
+            "write_via_convert": draw(st.booleans()),
+            "read": draw(st.sampled_from(["model_1", "model_1", "model_none", "model_last", "convert"])),
         }
 
     return gen()
@@ -1047,6 +1158,7 @@ def st_bonds(tier):
 
 def run_bonds(case):
     import biotite.structure as struc
+    import biotite.structure.io.pdb as pdb
     from biotite.structure.io.pdb import PDBFile
 
     o = Outcome()
@@ -1122,18 +1234,37 @@ def run_bonds(case):
     f = PDBFile()
     with warnings.catch_warnings():
         warnings.simplefilter("ignore")
-        f.set_structure(arr, hybrid36=case["hybrid36"])
+        if case.get("write_via_convert"):
+            o.label("write_via_convert")
+            pdb.set_structure(f, arr, hybrid36=case["hybrid36"])
+        else:
+            f.set_structure(arr, hybrid36=case["hybrid36"])
     check_grammar(o, f.lines, case["hybrid36"])
     g = reread(f)
+    read = case.get("read", "model_1")
+    o.label("read:" + read)
     with warnings.catch_warnings():
         warnings.simplefilter("ignore")
-        back = g.get_structure(model=1, include_bonds=True, extra_fields=["atom_id"])
+        if read == "model_none":
+            # all models at once: the bonds belong to the stack
+            back = g.get_structure(model=None, include_bonds=True, extra_fields=["atom_id"])
+            if not o.check(isinstance(back, struc.AtomArrayStack) and back.stack_depth() == depth, "models_reproduced", "model=None must give a stack of all models"):
+                return o
+        elif read == "model_last":
+            back = g.get_structure(model=-1, include_bonds=True, extra_fields=["atom_id"])
+        elif read == "convert":
+            back = pdb.get_structure(g, model=1, include_bonds=True, extra_fields=["atom_id"])
+        else:
+            back = g.get_structure(model=1, include_bonds=True, extra_fields=["atom_id"])
     if not o.check_eq(back.array_length(), n, "bonds_reproduced", "number of atoms"):
+        return o
+    if not o.check(back.bonds is not None, "bonds_reproduced", "include_bonds=True gave a structure without a BondList"):
         return o
     o.check_eq(back.atom_id.tolist(), ids, "atom_id_reproduced", "atom ids")
     got = {(int(min(i, j)), int(max(i, j))): int(t) for i, j, t in back.bonds.as_array()}
 
-    key = [(r["chain"], r["res_id"]) for _, r, _, _ in rows]
+    # a residue is identified by chain, number and insertion code (10 and 10A are two residues)
+    key = [(r["chain"], r["res_id"], r["ins"]) for _, r, _, _ in rows]
     water = [r["res_name"] in ("HOH", "SOL") for _, r, _, _ in rows]
     het = [bool(r["hetero"]) and not w for (_, r, _, _), w in zip(rows, water)]
     must = {p for p in original if het[p[0]] or het[p[1]] or key[p[0]] != key[p[1]]}
@@ -1158,6 +1289,8 @@ def run_bonds(case):
         o.label("hetero_bond")
     if any(key[i] != key[j] for i, j in must):
         o.label("inter_residue_bond")
+    if any(key[i][:2] == key[j][:2] and key[i][2] != key[j][2] and not (het[i] or het[j]) for i, j in must):
+        o.label("bond_between_residues_differing_in_ins_code")
     if any(key[i][0] != key[j][0] and key[i][1] == key[j][1] and not (het[i] or het[j]) for i, j in must):
         o.label("inter_chain_same_res_id_bond")
     if any(min(degree.get(i, 0), degree.get(j, 0)) >= 4 for i, j in must):
@@ -1222,15 +1355,28 @@ def check_codec_value(o, n, length, with_model=True):
 
     top = h36_max(length)
     if n < 0 or n > top:
-        if n > INT32_MAX or n < -INT32_MAX - 1:
-            # does not fit the C int argument: OverflowError is also a refusal
-            try:
-                r = encode_hybrid36(n, length)
-            except (ValueError, OverflowError):
-                return
-            o.fail("hybrid36_out_of_range_rejected", f"encode_hybrid36({n}, {length}) returned {r!r}")
+        # Outside the range of the encoding.  "A positive integer" is all the docstring says: the number
+        # is refused (no document names the exception type), or - what the reference implementation
+        # does for negative numbers that fit, '-999' - it is encoded within the width such that
+        # decoding gives it back.  Never: a string that means another number, or a longer string.
+        what = "negative" if n < 0 else "beyond_max"
+        try:
+            r = encode_hybrid36(n, length)
+        except Exception as e:  # noqa: BLE001
+            o.label(f"{what}:refused:{type(e).__name__}")
             return
-        o.expect_raises(ValueError, lambda: encode_hybrid36(n, length), "hybrid36_out_of_range_rejected", f"encode_hybrid36({n}, {length})")
+        o.label(f"{what}:encoded")
+        if not o.check(
+            isinstance(r, str) and 1 <= len(r) <= length,
+            "hybrid36_out_of_range_rejected",
+            f"encode_hybrid36({n}, {length}) returned {r!r}: neither refused nor {length} characters",
+        ):
+            return
+        try:
+            back = decode_hybrid36(r)
+        except Exception as e:  # noqa: BLE001
+            back = f"{type(e).__name__}: {e}"
+        o.check_eq(back, n, "hybrid36_out_of_range_rejected", f"encode_hybrid36({n}, {length}) returned {r!r} instead of refusing; decoded")
         return
     try:
         s = encode_hybrid36(n, length)
@@ -1240,15 +1386,14 @@ def check_codec_value(o, n, length, with_model=True):
     if not o.check(isinstance(s, str) and 1 <= len(s) <= length, "hybrid36_width", f"encode_hybrid36({n}, {length}) = {s!r}"):
         return
     if with_model:
-        o.check_eq(s, model_encode(n, length), "hybrid36_matches_spec", f"encode_hybrid36({n}, {length})")
+        # blank padding to the requested length is as conformant as the bare number
+        o.check_eq(s.strip(" "), model_encode(n, length), "hybrid36_matches_spec", f"encode_hybrid36({n}, {length}) = {s!r}, without padding")
     try:
         back = decode_hybrid36(s)
     except ValueError as e:
         o.fail("hybrid36_decode_inverts_encode", f"encode_hybrid36({n}, {length}) = {s!r} which decode_hybrid36 rejects: {e}")
         return
     o.check_eq(back, n, "hybrid36_decode_inverts_encode", f"encode_hybrid36({n}, {length}) = {s!r}, decoded")
-    # as written into a column: right justified
-    o.check_eq(decode_hybrid36(s.rjust(length)), n, "hybrid36_decode_inverts_encode", f"encode_hybrid36({n}, {length}) right justified {s.rjust(length)!r}, decoded")
 
 
 def string_value(s):
@@ -1270,7 +1415,7 @@ def check_codec_string(o, s, length):
     n = decode_hybrid36(s)
     if not o.check_eq(n, string_value(s), "hybrid36_matches_spec", f"decode_hybrid36({s!r})"):
         return
-    o.check_eq(encode_hybrid36(n, length), s, "hybrid36_encode_inverts_decode", f"encode_hybrid36(decode_hybrid36({s!r}), {length})")
+    o.check_eq(encode_hybrid36(n, length).strip(" "), s, "hybrid36_encode_inverts_decode", f"encode_hybrid36(decode_hybrid36({s!r}), {length}) without padding")
 
 
 def st_h36_string(length):
@@ -1392,7 +1537,7 @@ def run_codec_boundaries(case):
         o.label("max_number")
         o.check_eq(max_hybrid36_number(length), top, "hybrid36_max_number", f"max_hybrid36_number({length})")
         try:
-            o.check_eq(encode_hybrid36(top, length), "z" * length, "hybrid36_max_number", f"encode_hybrid36({top}, {length})")
+            o.check_eq(encode_hybrid36(top, length).strip(" "), "z" * length, "hybrid36_max_number", f"encode_hybrid36({top}, {length})")
         except OverflowError as e:
             o.fail("hybrid36_max_number", f"encode_hybrid36({top}, {length}) raises OverflowError: {e}")
     if excluded:
@@ -1405,6 +1550,9 @@ def run_codec_boundaries(case):
 EXH_CHUNK = 50000
 
 
+H36_WINDOW = 10000
+
+
 def enum_codec_exhaustive(tier):
     lengths = [1, 2, 3, 4] if tier == "quick" else [1, 2, 3, 4, 5]
     for length in lengths:
@@ -1412,6 +1560,13 @@ def enum_codec_exhaustive(tier):
         chunk = EXH_CHUNK if length < 5 else 400000
         for lo in range(0, top + 1, chunk):
             yield {"length": length, "lo": lo, "hi": min(lo + chunk, top + 1)}
+    if tier == "quick":
+        # width 5 (87 million numbers) is enumerated in the thorough tier only; here: every number within
+        # +-H36_WINDOW of each change of the first character (end of the decimal range, A..Z, a..z, maximum)
+        top = h36_max(5)
+        for j in range(0, 53):
+            b = 10**5 + j * 36**4
+            yield {"length": 5, "lo": max(0, b - H36_WINDOW), "hi": min(b + H36_WINDOW, top + 1), "window": True}
 
 
 def run_codec_exhaustive(case):
@@ -1419,7 +1574,7 @@ def run_codec_exhaustive(case):
 
     o = Outcome()
     length = case["length"]
-    o.label(f"length={length}")
+    o.label(f"length={length}" + (":windows_at_first_character_changes" if case.get("window") else ""))
     bad = 0
     prev = None
     for n in range(case["lo"], case["hi"]):
@@ -1429,7 +1584,7 @@ def run_codec_exhaustive(case):
             if bad <= 3:
                 o.fail("hybrid36_decode_inverts_encode", f"encode_hybrid36({n}, {length}) = {s!r} decodes to {decode_hybrid36(s)!r}")
         if n % 97 == 0 or prev is None:
-            if s != model_encode(n, length):
+            if s.strip(" ") != model_encode(n, length):
                 o.fail("hybrid36_matches_spec", f"encode_hybrid36({n}, {length}) = {s!r}, specification {model_encode(n, length)!r}")
         prev = s
     o.mark_nontrivial(case["hi"] > 10**length)
@@ -1505,8 +1660,8 @@ def enum_limits(tier):
                     c["atoms"][0].update({"chain": chain, "res_id": rid, "ins": ins})
                     yield c
     # default numbering across the 99999 -> 100000 wrap point (hybrid-36)
+    yield {"big": 100002, "hybrid36": True}
     if tier == "thorough":
-        yield {"big": 100002, "hybrid36": True}
         yield {"big": 100002, "hybrid36": False}
 
 
@@ -1517,7 +1672,8 @@ def run_limits(case):
 
 
 def run_big(case):
-    """100 002 atoms with continuous numbering: hybrid-36 encodes, decimal mode wraps and warns."""
+    """100 002 atoms with continuous numbering: hybrid-36 encodes, decimal mode wraps and warns
+    (or refuses)."""
     import biotite.structure as struc
     from biotite.structure.io.pdb import PDBFile
 
@@ -1530,17 +1686,28 @@ def run_big(case):
     arr.res_name[:] = "GLY"
     arr.atom_name[:] = "CA"
     arr.element[:] = "C"
-    f, lines, warns = write_pdb(arr, case["hybrid36"], False)
+    o.label("big")
+    o.mark_nontrivial(True)
+    if case["hybrid36"]:
+        f, lines, warns = write_pdb(arr, True, False)
+    else:
+        # more atoms (and residues) than the decimal columns can number: "refused with an error" is what
+        # the property states, wrapping the default numbering (100000 -> 1) with a warning is what the
+        # repository tests pin; both are accepted
+        try:
+            f, lines, warns = write_pdb(arr, False, False)
+        except Exception as e:  # noqa: BLE001 - no document names the exception type
+            o.label("big_refused:" + type(e).__name__)
+            return o
+        o.label("big_wrapped")
     check_grammar(o, lines[:5] + lines[9990:10010] + lines[99990:], case["hybrid36"])
     back = reread(f).get_structure(model=1, extra_fields=["atom_id"])
     if case["hybrid36"]:
         o.check_eq(back.atom_id[[0, 99998, 99999, n - 1]].tolist(), [1, 99999, 100000, n], "atom_id_reproduced", "default numbering")
         o.check_array_eq(back.res_id, np.arange(1, n + 1), "res_id_reproduced", "res ids")
     else:
-        o.check(any("wrapped" in w for w in warns), "overlimit_id_wrap_warned", "no wrap warning")
+        o.check(len(warns) >= 1, "overlimit_id_wrap_warned", "atom and residue numbers were wrapped without any warning")
         o.check_eq(back.atom_id[[0, 99998, 99999, n - 1]].tolist(), [1, 99999, 1, 3], "atom_id_reproduced", "wrapped numbering")
-    o.label("big")
-    o.mark_nontrivial(True)
     return o
 
 
@@ -1597,7 +1764,7 @@ SUBS = [
         quick=112,
         thorough=800,
         rule="batch with >= 1 value beyond the decimal range",
-        clauses="encode/decode mutually inverse for lengths 1..6, values beyond the maximum and negative values rejected",
+        clauses="encode/decode mutually inverse for lengths 1..6; values beyond the maximum and negative values are rejected or encoded within the width such that decoding inverts it, never mapped to another number",
     ),
 ]
 
@@ -1623,7 +1790,7 @@ ENUMS = [
         enum_codec_exhaustive,
         run_codec_exhaustive,
         rule="chunk reaches beyond the decimal range",
-        clauses="decode(encode(n, L)) == n for ALL n in [0, max(L)]: L = 1..4 (quick), L = 1..5 (thorough)",
+        clauses="decode(encode(n, L)) == n for ALL n in [0, max(L)]: L = 1..4 (quick; L = 5 only +-10000 around each change of the first character), L = 1..5 (thorough)",
         exhaustive=True,
     ),
 ]
